@@ -201,15 +201,27 @@ fn parse_death(line: &str) -> Option<(u64, String, String, String, String)> {
 
 /// One driver thread per worker process: feeds chunks, forwards results, attributes deaths to
 /// the last `S` line and respawns at the next index.
+/// Set when a batch has seen so many time-outs or crashes that running on would take hours (a
+/// change that makes most runs of one format spin costs a full CPU budget per run): the workers
+/// stop, and the batch reports what it has.
+static ABORT_BATCH: std::sync::atomic::AtomicBool = std::sync::atomic::AtomicBool::new(false);
+const MAX_SLOW_DEATHS: u64 = 64;
+
 fn worker_thread(prop: String, tier: Tier, seed: u64, queue: Arc<Mutex<Vec<(u64, u64)>>>, tx: mpsc::Sender<Msg>) {
     let mut proc: Option<Proc> = None;
     loop {
+        if ABORT_BATCH.load(std::sync::atomic::Ordering::Relaxed) {
+            break;
+        }
         let chunk = { queue.lock().unwrap().pop() };
         let (mut a, b) = match chunk {
             Some(c) => c,
             None => break,
         };
         while a < b {
+            if ABORT_BATCH.load(std::sync::atomic::Ordering::Relaxed) {
+                break;
+            }
             if proc.is_none() {
                 match spawn_worker(&prop, tier, seed) {
                     Ok(p) => proc = Some(p),
@@ -666,6 +678,8 @@ pub fn run_batch_strided(prop: &str, tier: Tier, seed: u64, workers: usize, limi
     drop(tx);
     let mut agg = Agg::default();
     let mut last_report = Instant::now();
+    let mut slow_deaths = 0u64;
+    ABORT_BATCH.store(false, std::sync::atomic::Ordering::Relaxed);
     for msg in rx {
         match msg {
             Msg::HarnessError(e) => return Err(e),
@@ -707,6 +721,13 @@ pub fn run_batch_strided(prop: &str, tier: Tier, seed: u64, workers: usize, limi
             Msg::Death { idx, class, origin, client, msg } => {
                 agg.evaluations += 1;
                 agg.deaths += 1;
+                if class == "hang" || class == "crash" {
+                    slow_deaths += 1;
+                    if slow_deaths == MAX_SLOW_DEATHS {
+                        eprintln!("[{}] {} runs timed out or crashed: stopping the batch early, reporting what was found", prop, slow_deaths);
+                        ABORT_BATCH.store(true, std::sync::atomic::Ordering::Relaxed);
+                    }
+                }
                 *agg.outcomes.entry(format!("death:{}", class)).or_default() += 1;
                 agg.dets.insert(idx, crate::prng::hbytes(format!("{}|{}", class, origin).as_bytes()));
                 let v = Violation { class, origin, client, msg, op: -1, detail: String::new() };
@@ -724,6 +745,11 @@ pub fn run_batch_strided(prop: &str, tier: Tier, seed: u64, workers: usize, limi
     }
     for h in handles {
         let _ = h.join();
+    }
+    if ABORT_BATCH.load(std::sync::atomic::Ordering::Relaxed) {
+        // an aborted batch is a failed check (the violations it collected are reported), not a harness error
+        let done = agg.evaluations;
+        return Ok((AggOut { a: agg, total: done.max(1) }, t0.elapsed().as_secs_f64()));
     }
     if agg.evaluations != total {
         return Err(format!("{}: {} of {} runs reported", prop, agg.evaluations, total));
@@ -785,6 +811,7 @@ pub fn check_main(prop: &str, tier: Tier, seed: u64) -> i32 {
     let mut reported: Vec<serde_json::Value> = Vec::new();
     let mut exit = 0;
     new_viol.sort_by_key(|x| x.0);
+    let mut slow_minimised = 0;
     let replay_dir = format!("{}/replays", verif_root());
     for (n, (idx, v, spec, count)) in new_viol.iter().enumerate() {
         let spec = spec.clone().or_else(|| fetch_spec(prop, tier, seed, *idx));
@@ -814,7 +841,12 @@ pub fn check_main(prop: &str, tier: Tier, seed: u64) -> i32 {
                 continue;
             }
         }
-        let (mspec, mv, used) = if n < 12 { minimise(&spec, v) } else { (spec.clone(), v.clone(), 0) };
+        // every execution of a time-out costs a full CPU budget: minimise the first two of them only
+        let slow = v.class == "hang" || v.class == "superlinear";
+        if slow {
+            slow_minimised += 1;
+        }
+        let (mspec, mv, used) = if n < 12 && (!slow || slow_minimised <= 2) { minimise(&spec, v) } else { (spec.clone(), v.clone(), 0) };
         // a violation found under a death has no site of its own for `hang`; re-match known findings with the minimised one
         if let Some(k) = matches_known(&known, prop, &mv) {
             println!("KNOWN-FINDING: property={} {} site={}", prop, k.what, if k.origin.is_empty() { &k.origin_fn } else { &k.origin });
